@@ -109,6 +109,14 @@ package wallet
 // (gaps would eat into the 300-counter gap limit of Restore)
 //@   ensures @nogap [C19] err == nil ==> (forall id Str :: wdb.counter[id] == old(wdb.counter)[id] || wdb.counter[id] == wal.derivedupto[id])
 
+// NUT-20 (C03), wallet side: the key whose public half locks the quote at the mint is the private key stored
+// with the quote (MintTokens signs with it)
+//@ func (*Wallet).RequestMint
+//@   tags C03
+//@   requires w != nil && w.db != nil && w.mints != nil
+//@   calls client.PostMintQuoteBolt11 asserts @locks [C03] hexok(mintQuoteRequest.Pubkey) && pt.parseok(hexdec(mintQuoteRequest.Pubkey)) && pt.parse(hexdec(mintQuoteRequest.Pubkey)) == smul(sc.of(privateKey.Key), pt.G) && mintQuoteRequest.Amount == amount
+//@   calls (storage.WalletDB).SaveMintQuote asserts @keystored [C03] mq.PrivateKey == privateKey && mq.QuoteId == mintResponse.Quote && mq.Amount == amount
+
 //@ func (*Wallet).MintTokens
 //@   tags C19 C03
 // NUT-20 (C03), wallet side: a quote with a private key is redeemed with that key's signature over this quote id
